@@ -11,9 +11,10 @@ Open Scope Q_scope.
 
 (* ------------------------------------------------------------------ observations *)
 (* a Molecule / Sequence: name, sequence text ("" for a plain Molecule), cell_volume, charge, mass, Dmass,
-   labile_formula.density, natural_formula.density, labile_formula.structure, natural_formula.structure *)
+   labile_formula.density, natural_formula.density, the object's own .density (PE AttrErr when the
+   attribute is missing), labile_formula.structure, natural_formula.structure *)
 Inductive molobs :=
-| MO (name : pyval) (sequence : string) (vol charge mass dmass ldens ndens : pyval) (labile natural : struct)
+| MO (name : pyval) (sequence : string) (vol charge mass dmass ldens ndens dens : pyval) (labile natural : struct)
 | ME (e : err).
 
 Inductive formobs := FO (st : struct) (dens : pyval) | FE (e : err).
@@ -73,7 +74,7 @@ Definition tag (ok : bool) (name : string) : string := if ok then ""%string else
 Definition mol_verdicts (exact : bool) (qscale : Q) (seq : string) (m : molecule) (o : molobs) : list (string * bool) :=
   match o with
   | ME _ => [("raised", false)]
-  | MO name sq vol charge mass dmass ldens ndens labile natural =>
+  | MO name sq vol charge mass dmass ldens ndens dens labile natural =>
       [("name", name_ok name (m_name m));
        ("sequence", String.eqb sq seq);
        ("cell_volume", relq vol (m_vol m));
@@ -82,6 +83,10 @@ Definition mol_verdicts (exact : bool) (qscale : Q) (seq : string) (m : molecule
        ("Dmass", relq dmass (m_Dmass m));
        ("labile_density", match f_density (m_labile m) with Some d => relq ldens d | None => false end);
        ("natural_density", match f_density (m_natural m) with Some d => relq ndens d | None => false end);
+       ("density", match m_density m with
+                   | Some d => relq dens d
+                   | None => match dens with PNone => true | _ => false end
+                   end);
        ("labile_formula", struct_close exact (f_struct (m_labile m)) labile);
        ("natural_formula", struct_close exact (f_struct (m_natural m)) natural)]
   end.
@@ -113,7 +118,7 @@ Definition tally_qscale (l : list tentry) : Q := tsum (fun t => Qabs (m_charge (
 Definition spec_verdicts (exact : bool) (l : list tentry) (o : molobs) : list (string * bool) :=
   match o with
   | ME _ => [("spec-raised", false)]
-  | MO _ _ vol charge mass dmass ldens ndens labile natural =>
+  | MO _ _ vol charge mass dmass ldens ndens dens labile natural =>
       let qscale := tally_qscale l in
       let total (a : atom) := tsum (fun t => dget0 (t_atoms t) a) l in
       let present := flat_map (fun t => map fst (filter (fun kv : atom * Q => negb (Qeq_bool (snd kv) 0))
@@ -134,8 +139,8 @@ Definition spec_verdicts (exact : bool) (l : list tentry) (o : molobs) : list (s
          forallb (fun a => existsb (fun it : Q * frag => match snd it with FAtom b => atom_eqb a b | _ => false end)
                                    labile) present)%bool);
        ("density-is-mass-over-volume",
-        if Qle_bool sumvol 0 then exactq ndens 0
-        else relq ndens (TEN24 * (summass / NA) / sumvol))]
+        if Qle_bool sumvol 0 then (exactq ndens 0 && exactq dens 0)%bool
+        else (relq ndens (TEN24 * (summass / NA) / sumvol) && relq dens (TEN24 * (summass / NA) / sumvol))%bool)]
   end.
 
 (* ------------------------------------------------------------------ cases *)
@@ -144,13 +149,13 @@ Definition seq_verdicts (E : aenv) (ts : tables) (ty name s : string) (o : molob
   | None => [("unknown-type", match o with ME KeyErr => true | _ => false end)]
   | Some tab =>
       match sequence_of E tab (Some name) s, o with
-      | FOk sm, MO _ _ _ _ _ _ _ _ _ _ =>
+      | FOk sm, MO _ _ _ _ _ _ _ _ _ _ _ =>
           let l := tally tab (chars (clean s)) in
           let exact := tally_exact l in
           (mol_verdicts exact (tally_qscale l) (s_sequence sm) (s_mol sm) o ++ spec_verdicts exact l o)%list
       | FErr e, ME e' => [("error-kind", err_eqb e e')]
       | FOk _, ME _ => [("raised", false)]
-      | FErr _, MO _ _ _ _ _ _ _ _ _ _ => [("should-raise", false)]
+      | FErr _, MO _ _ _ _ _ _ _ _ _ _ _ => [("should-raise", false)]
       | FUnmodelled, _ => [("unmodelled", false)]
       end
   end.
@@ -198,7 +203,7 @@ Fixpoint until_err (l : list (fres seqmol)) : list (fres seqmol) :=
 
 Definition loaded_verdicts (ts : tables) (ty : string) (raw : string) (x : fres seqmol) (o : molobs) : list (string * bool) :=
   match x, o with
-  | FOk sm, MO _ _ _ _ _ _ _ _ _ _ =>
+  | FOk sm, MO _ _ _ _ _ _ _ _ _ _ _ =>
       match tables_get ts ty with
       | Some tab =>
           let l := tally tab (chars (clean raw)) in
